@@ -345,3 +345,34 @@ def decoded_passthrough(chk: Check, rule: str) -> int:
                        "helper that swaps it for an equal object changes values whose equality is "
                        "coarser than their encoding (signed zeros, 1/True/1.0)" % (c.qualname, why), 2)
     return n
+
+
+def stream_discipline(chk: Check, rule: str) -> int:
+    """the codecs consume and produce the stream strictly front to back: ``read(n)`` on the
+    decode side, ``write(b)`` on the encode side, nothing else.  Position/size queries
+    (tell, seek, getbuffer, peek ...) make what a codec accepts depend on what surrounds the value
+    in the stream — the wire format of a value is defined by the value's own bytes."""
+    n = 0
+    m = chk.repo.module("serialization")
+    for f in chk.repo.all_functions():
+        if f.module is not m:
+            continue
+        streams = set()
+        a = f.node.args
+        for x in a.posonlyargs + a.args + a.kwonlyargs:
+            ann = unparse(x.annotation) if x.annotation is not None else ""
+            if "BinaryIO" in ann or "IOBase" in ann or "BytesIO" in ann:
+                streams.add(x.arg)
+        if not streams:
+            continue
+        n += 1
+        for c in walk_no_nested(f.node):
+            if isinstance(c, ast.Attribute) and isinstance(c.value, ast.Name) and c.value.id in streams \
+                    and c.attr not in ("read", "write"):
+                chk.saw(f)
+                chk.ob(rule, "%s:stream-front-to-back(%s)" % (f.qualname, c.attr), False, f.loc(c),
+                       "%s uses %s.%s: a codec may only read(n) / write(b) the stream, front to back"
+                       % (f.qualname, c.value.id, c.attr), 1)
+    chk.ob(rule, "serialization:stream-discipline:scanned", n >= 20, "python/gtirb/serialization.py:1",
+           "only %d functions with a stream parameter found" % n, n)
+    return n
